@@ -32,7 +32,12 @@ func newLexer(filename string, src io.Reader) *lexer {
 	s := &scanner.Scanner{}
 	s.Init(src)
 	s.Filename = filename
-	return &lexer{s: s}
+
+	l := &lexer{s: s}
+	s.Error = func(_ *scanner.Scanner, msg string) {
+		l.Error(msg)
+	}
+	return l
 }
 
 func setLexerResult(l yyLexer, file *syntax.File) {
@@ -75,7 +80,10 @@ func (l *lexer) Lex(lval *yySymType) int {
 			return lval.yys
 
 		case scanner.Int:
-			v, _ := strconv.ParseInt(text, 10, 64)
+			v, err := strconv.ParseInt(text, 10, 64)
+			if err != nil {
+				return yyLexErrorf(l, "invalid integer %q", text)
+			}
 			lval.yys = INTEGER
 			lval.integer = int(v)
 
@@ -84,14 +92,8 @@ func (l *lexer) Lex(lval *yySymType) int {
 			}
 			return lval.yys
 
-		case scanner.Float:
-			lval.yys = int(token)
-			lval.string = text
-
-			if debugLexer {
-				fmt.Printf("FLOAT %v %v %v\n", l.s.Position, token, text)
-			}
-			return lval.yys
+		case scanner.Float, scanner.Char, scanner.RawString:
+			return yyLexErrorf(l, "unexpected token %v", text)
 
 		case scanner.String:
 			lval.yys = STRING
@@ -121,12 +123,17 @@ func (l *lexer) Lex(lval *yySymType) int {
 }
 
 func (l *lexer) Error(s string) {
+	if l.err != nil {
+		return // keep the first error
+	}
 	l.err = fmt.Errorf("%v %v", l.s.Position, s)
 }
 
 func yyLexError(l yyLexer, err error) int {
 	ll := l.(*lexer)
-	ll.err = fmt.Errorf("%v %w", ll.s.Position, err)
+	if ll.err == nil {
+		ll.err = fmt.Errorf("%v %w", ll.s.Position, err)
+	}
 	return ERROR
 }
 
